@@ -55,6 +55,7 @@ func cmdVerify(args []string) int {
 	timeout := fs.Int("timeout", 10, "solver timeout (s)")
 	keep := fs.String("keep", "", "keep VC files in this dir")
 	verbose := fs.Bool("v", false, "verbose")
+	chain := fs.Bool("chain", false, "verify chain lemmas instead of contracts")
 	fs.Parse(args)
 	pats := fs.Args()
 	if len(pats) == 0 {
@@ -78,6 +79,16 @@ func cmdVerify(args []string) int {
 		keys = append(keys, k)
 	}
 	sort.Strings(keys)
+	if *chain {
+		keys = nil
+		for _, c := range db.chains {
+			for _, f := range c.States {
+				if *only == "" || strings.Contains(f, *only) {
+					x.verifyChainState(c, db.chainPkg[c], f)
+				}
+			}
+		}
+	}
 	for _, k := range keys {
 		if *only != "" && !strings.Contains(k, *only) {
 			continue
